@@ -16,17 +16,23 @@ typedef long it_t;             /* const char iterator = offset into g_buf */
 typedef int ec_t;              /* boost::system::error_code as an integer */
 
 #ifdef VERIF_CBMC
+/* a limit of the MODEL (not of the library): reaching it makes the run UNDECIDED */
+#define MODEL_LIMIT(c, msg) __CPROVER_assert((c), "model limit: " msg)
 #define MODEL_PRE(c, msg) __CPROVER_assert((c), "model precondition: " msg)
 #define MODEL_FAIL_RET(c, v)
 #ifdef VERIF_VACUITY
 /* vacuity build: every marked point must be reachable, i.e. this must FAIL */
 #define VERIF_COVER(id) __CPROVER_assert(0, "reach:" #id)
+/* only the returns of the function under contract are probed */
+#define VERIF_COVER_IN(fn, id) do { if (VERIF_FNID_##fn == VERIF_VACUITY_FN) __CPROVER_assert(0, "reach:" #id); } while (0)
 #else
 #define VERIF_COVER(id)
+#define VERIF_COVER_IN(fn, id)
 #endif
 #else
 extern unsigned long model_pre_failures;
 #define MODEL_PRE(c, msg) do { if (!(c)) model_pre_failures++; } while (0)
+#define MODEL_LIMIT(c, msg) do { if (!(c)) model_pre_failures++; } while (0)
 #define MODEL_FAIL_RET(c, v) do { if (!(c)) return (v); } while (0)
 #define VERIF_COVER(id)
 #endif
@@ -104,6 +110,21 @@ static inline sv_t sv_from_str(const str_t *s) { return *s; }
 static inline sv_t sv_empty_view(void) { sv_t r; r.off = 0; r.n = 0; return r; }
 static inline unsigned long str_size(const str_t *s) { return s->n; }
 static inline _Bool str_empty(const str_t *s) { return s->n == 0; }
+/* mutable std::string: occupies g_buf[off, off+n) with room behind it (growth
+ * never fails in the model: allocation failure is not modelled) */
+static inline void str_push_back(str_t *s, char c) {
+  MODEL_LIMIT(s->off + (long)s->n < (long)g_n, "room behind the string in the ghost buffer");
+#ifndef VERIF_CBMC
+  if (!(s->off + (long)s->n < (long)g_n)) return;
+#endif
+  g_buf[s->off + (long)s->n] = c;
+  s->n++;
+}
+static inline const char *str_at(const str_t *s, unsigned long i) {
+  MODEL_PRE(i <= s->n, "string[i] requires i <= size()");
+  MODEL_FAIL_RET(i <= s->n, &g_dummy);
+  return &g_buf[s->off + (long)i];
+}
 static inline it_t str_begin(const str_t *s) { return s->off; }
 static inline it_t str_end(const str_t *s) { return s->off + (long)s->n; }
 static inline it_t sv_begin(const sv_t *s) { return s->off; }
@@ -170,6 +191,16 @@ static inline char it_deref_v(it_t it) {
   MODEL_FAIL_RET(g_lo <= it && it < g_hi, 0);
   return g_buf[it];
 }
+/* std::string(first, last): [first,last) must be a valid range of one container
+ * (first > last makes libstdc++ throw length_error / read out of bounds) and,
+ * being read, must lie inside the window.  The model shares the bytes. */
+static inline str_t str_from_range(it_t first, it_t last) {
+  str_t r;
+  MODEL_PRE(first <= last, "std::string(first,last) requires first <= last");
+  MODEL_PRE(first == last || (g_lo <= first && last <= g_hi), "std::string(first,last) reads inside [first,last) of the packet");
+  r.off = first; r.n = (first <= last) ? (unsigned long)(last - first) : 0ul;
+  return r;
+}
 static inline it_t it_add(it_t it, long d) { return it + d; }
 static inline long it_distance(it_t a, it_t b) { return b - a; }
 
@@ -180,7 +211,8 @@ static inline long it_distance(it_t a, it_t b) { return b - a; }
   static inline T *NAME##_value(NAME *o) { \
     MODEL_PRE(o->has, "optional::value()/operator* requires has_value()"); \
     return &o->val; } \
-  static inline T NAME##_value_or(NAME *o, T d) { return o->has ? o->val : d; }
+  static inline T NAME##_value_or(NAME *o, T d) { return o->has ? o->val : d; } \
+  static inline void NAME##_emplace(NAME *o, T v) { o->has = 1; o->val = v; }
 
 #define DEF_PAIR(NAME, A, B) \
   typedef struct { A first; B second; } NAME; \
